@@ -150,6 +150,12 @@ def run_traced(text, flags="", inputs=(), budget=200, online=False):
             holder["ctx"] = self
 
     M.Context = SpyContext
+    # what the interpreter will hold as the program's inputs (values given as Python values are handed over as their
+    # repr and parsed back to themselves; texts go through input parsing and are not predicted here)
+    try:
+        holder["inputs0"] = None if any(isinstance(x, str) for x in inputs) else [runner.value_json(x) for x in inputs]
+    except BaseException:  # noqa: BLE001
+        holder["inputs0"] = None
     raised = ""
     final_stack = None
     record = {1: "", 2: ""}
@@ -179,6 +185,10 @@ def run_traced(text, flags="", inputs=(), budget=200, online=False):
             ctx = holder.get("ctx")
             d = ([len(ctx.context_values), len(ctx.inputs), len(ctx.stacks), len(ctx.function_stack)]
                  if ctx else [0, 0, 0, 0])
+            try:
+                inchg = bool(ctx) and [runner.value_json(x) for x in ctx.inputs[0][0]] != holder.get("inputs0", None)
+            except BaseException:  # noqa: BLE001
+                inchg = False
             # (taken now: forcing lazy values below may run -- and abort -- lambda bodies)
             ctxv = _vj(ctx.context_values[-1]) if ctx and ctx.context_values else {"x": "empty"}
             # the module-level stack is the list registered in ctx.stacks[0]; forcing lazy values may
@@ -203,7 +213,7 @@ def run_traced(text, flags="", inputs=(), budget=200, online=False):
     events.append({"ev": "Final", "stack": final_stack,
                    "out": common.cps(record[1] if online else cap.text), "d": d, "raised": raised,
                    "host": len(cap.text) if online else 0, "rec2": len(record[2]), "canary": canary,
-                   "ctx": ctxv})
+                   "ctx": ctxv, "inchg": bool(inchg) if holder.get("inputs0") is not None else False})
     return {"text": common.cps(text), "flags": sorted(set(flags)),
             "inputs": [runner.value_json(x) if not isinstance(x, str) else {"s": common.cps(x)} for x in inputs],
             "online": bool(online), "ev": events}
